@@ -9,6 +9,7 @@
 * The ready queue is never reordered.
 """
 import asyncio
+import logging
 import gc
 import heapq
 import sys
@@ -69,6 +70,12 @@ class Sentinel:
         return self.loop_errors + self.unraisable
 
 
+# The application's log level is no input of any property: every DEBUG_EVERY-th scenario runs with the library's loggers at
+# DEBUG (into a NullHandler), so that code guarded by logger.isEnabledFor(DEBUG) is part of what the monitors observe.
+DEBUG_EVERY = 4
+SCENARIOS = {'total': 0, 'debug_logging': 0}
+
+
 class Scenario:
     """Runs one coroutine on a fresh virtual loop.
 
@@ -98,6 +105,17 @@ class Scenario:
         old_hook = sys.unraisablehook
         loop.set_exception_handler(self.sentinel.handler)
         sys.unraisablehook = self.sentinel.hook
+        SCENARIOS['total'] += 1
+        self.debug_logging = DEBUG_EVERY and SCENARIOS['total'] % DEBUG_EVERY == DEBUG_EVERY - 1
+        lib_logger = logging.getLogger('ndn')
+        old_log = (lib_logger.level, lib_logger.propagate, logging.root.manager.disable)
+        if self.debug_logging:
+            SCENARIOS['debug_logging'] += 1
+            if not any(isinstance(h, logging.NullHandler) for h in lib_logger.handlers):
+                lib_logger.addHandler(logging.NullHandler())
+            lib_logger.propagate = False
+            lib_logger.setLevel(logging.DEBUG)
+            logging.disable(logging.NOTSET)
         _time.time = lambda: BASE + loop._vt + EPS
         asyncio.set_event_loop(loop)
         main = None
@@ -137,6 +155,10 @@ class Scenario:
                 pass
         finally:
             _time.time = old_time
+            if self.debug_logging:
+                lib_logger.setLevel(old_log[0])
+                lib_logger.propagate = old_log[1]
+                logging.disable(old_log[2])
             asyncio.set_event_loop(None)
             try:
                 loop.close()
